@@ -1,0 +1,13 @@
+//go:build verif
+
+package shrex_getter //nolint:stylecheck // underscore in pkg name will be fixed with shrex refactoring
+
+import "time"
+
+// VerifSetMinRequestTimeout shortens the minimal time a single peer is given per attempt
+// (defaultMinRequestTimeout, one minute), so that a verification harness can observe an attempt
+// timing out while the caller's context is still alive without waiting for minutes.
+// Only compiled with the `verif` build tag.
+func (sg *Getter) VerifSetMinRequestTimeout(d time.Duration) {
+	sg.minRequestTimeout = d
+}
